@@ -119,6 +119,23 @@ Theorem C16_decimal_roundtrip : forall z, 0 <= z ->
 Proof. exact decimal_roundtrip. Qed.
 Print Assumptions C16_decimal_roundtrip.
 
+(* Time.IsEqualTo / IsAfterOrEqual: equality is equality of (shift, hour, minute) — with C16_time_literals this is
+   "denote the same point in time", e.g. 24:00 = 0:00> — and the order is the total order of the points in time *)
+Theorem C16_time_equal_spec : forall a b, valid_time a -> valid_time b ->
+  (time_eqb a b = true <-> shift_of a = shift_of b /\ t_hour a = t_hour b /\ t_min a = t_min b).
+Proof. exact time_eq_spec. Qed.
+Print Assumptions C16_time_equal_spec.
+
+Theorem C16_time_after_or_equal_spec : forall a b,
+  time_geb a b = true <-> 1440 * shift_of b + 60 * t_hour b + t_min b <= 1440 * shift_of a + 60 * t_hour a + t_min a.
+Proof. exact time_after_or_equal_spec. Qed.
+Print Assumptions C16_time_after_or_equal_spec.
+
+Theorem C16_time_order_total_antisym : forall a b,
+  (time_geb a b = true \/ time_geb b a = true) /\ (time_geb a b = true -> time_geb b a = true -> time_eqb a b = true).
+Proof. intros a b. split; [exact (time_order_total a b) | exact (time_order_antisym a b)]. Qed.
+Print Assumptions C16_time_order_total_antisym.
+
 (* the specification's equivalences of time literals *)
 Example C16_time_equiv :
   denote_time {| st_shift := 0; st_hh := 24; st_pad := false; st_mm := 0; st_clock := C24 |}
